@@ -301,6 +301,15 @@ class SuitInt(SuitObject):
             raise ValueError(f"Unable to create int from {value}")
         super().__init__(value)
 
+    @classmethod
+    def from_cbor(cls, cbstr: bytes) -> SuitInt:
+        """Restore SUIT representation from passed CBOR."""
+        value = cls.deserialize_cbor(cbstr)
+        if isinstance(value, bool) or cls.serialize_cbor(value) != cbstr:
+            # Not exactly one integer in its shortest form, e.g. a byte string that merely starts like an integer.
+            raise ValueError(f"Unable to create int from {cbstr.hex()}")
+        return cls(value)
+
 
 class SuitUint(SuitInt):
     """Representation of unsigned int type."""
